@@ -52,7 +52,9 @@ RClose == /\ IsEvent("rclose")
                     \cup (IF ev.rebound /\ ev.fds <= ev.basefds THEN {} ELSE {"Inv_C18_NoLeak"}))
           /\ UNCHANGED <<ex, closeAt, closeEnd>>
 
-Next == Boot18 \/ RClose \/ Begin \/ FxBegin \/ CloseBegin \/ CloseEnd \/ FxEnd \/ Census
+\* the bulk phase that uses up a connection's transaction IDs (its exchanges are not recorded one by one)
+Bulk == IsEvent("bulk") /\ UNCHANGED <<ex, closeAt, closeEnd>>
+Next == Bulk \/ Boot18 \/ RClose \/ Begin \/ FxBegin \/ CloseBegin \/ CloseEnd \/ FxEnd \/ Census
 Spec == Init /\ [][Next]_tvars
 Post == Consumed
 =============================================================================
